@@ -191,11 +191,14 @@ class ArgparseRunner:
             sys.stdout.write(";")
 
     def _list_outputs_only(self) -> None:
+        omit = bool(self._args.omit_serialization_support)
         if self._args.generate_support != "only":
-            self._stdout_lister(self._generator.generate_all(is_dryrun=True), str)
+            self._stdout_lister(self._generator.generate_all(is_dryrun=True, omit_serialization_support=omit), str)
 
         if self._should_generate_support():
-            self._stdout_lister(self._support_generator.generate_all(is_dryrun=True), str)
+            self._stdout_lister(
+                self._support_generator.generate_all(is_dryrun=True, omit_serialization_support=omit), str
+            )
 
     def _list_inputs_only(self) -> None:
         if self._args.generate_support != "only":
